@@ -603,6 +603,7 @@ def execute(trace, rng):
     except Violation as v:
         status = violation_result(v)
     st = dict(w.stats)
+    st["fault.poisoned_batch"] = st["poison"]
     st["ref_requests"] = rw.ref_requests()
     nontrivial = bool(w.stats["late_resolutions"] or w.stats["explicit_wins"])
     h = hashlib.blake2b(json.dumps([trace["init"], trace.get("init_alias"), trace.get("conf_subclass"),
